@@ -189,7 +189,7 @@ def main():
         },
         "engines": [
             {"name": "mdstatic", "path": "/verif/mdstatic", "serves_properties": sorted(CHECKS),
-             "kind_free_text": "repository-specific static analyser (python ast + re._parser): program model and call graph, regex->DFA language engine, guard normal forms with truth tables, linear-form bounds with Fourier-Motzkin entailment, affine frame analysis of scan_node, effect/taint analysis, agreement tables"},
+             "kind_free_text": "repository-specific static analyser (python ast + re._parser): program model and call graph with a syntactic normaliser (private helpers inlined, aliases / hoisted temporaries propagated, loop spellings unified - mdstatic/normalise.py, listed per run in the evidence), regex->DFA language engine, guard normal forms with truth tables, linear-form bounds with Fourier-Motzkin entailment, affine frame analysis of scan_node, effect/taint analysis, agreement tables"},
             {"name": "selftest", "path": "/verif/selftest", "serves_properties": sorted(CHECKS),
              "kind_free_text": "thorough tier: catalogue of breaking / neutral source edits applied to in-memory copies; every breaking edit must be reported at the named rule, every neutral edit must stay silent"},
         ],
